@@ -17,7 +17,8 @@ ID = "C10"
 RULE = ("polylines / surfaces / tetrahedral volumes from the zoos incl. disconnected ones; every tree kind (vertex BFS tree, minimal spanning tree, "
         "dual face tree, cell tree) and every forest kind; random roots; random exclusion sets (incl. disconnecting ones) and avoid_boundary; "
         "MST weights one/length/custom dict/Attribute with ties; both traversal orders; non-trivial = non-empty exclusion set (or avoid_boundary) on a "
-        "graph with a cycle, or a disconnected mesh; distinct = (mesh, tree kind, root, exclusions) hash")
+        "graph with a cycle, or a disconnected mesh; distinct = (mesh, tree kind, root, exclusions) hash"
+        "; variants: library-chosen roots, n_trees, deep trees, free (zero-cost) edges in a dict or as never-written entries of a sparse attribute")
 REQUIRED = {"tree": 2000, "bfs_depth": 300, "mst": 100, "forest": 100, "traverse": 300}
 CASE_TIMEOUT = {"quick": 30.0, "thorough": 600.0}
 ASSUMPTIONS = ["exclusion sets are sets of edge ids (vertex / face trees) or face ids (cell trees) of the mesh's own numbering",
